@@ -18,6 +18,11 @@ def run(rep, tier, seed):
         if len(s2) < 2: s2.append({'program': case['program']})
         if fail: rep.violation('program degrees', str([s[1] for s in case['program']['stmts']]), '%s: %s' % (case['program']['stmts'], fail), {'kind': 'program', 'case': case, 'failure': fail})
     rep.add_bounded('programs: forward and reverse sweep across degrees', m, len(k), 'corpus programs: forward value and reverse-sweep adjoint coefficients < D\' for D=4 vs D\' in 1..3 (seed truncated)', s2, 'programs <= 6 ops, D=4')
+    from .genbounded import feed
+    from bounded import linalg_checks
+    feed(rep, linalg_checks.c12_factorizations, 6350 + seed, tier, 'factorizations across degrees',
+         'qr, cholesky, lu, eigh (distinct eigenvalues: all outputs; exactly repeated eigenvalue: eigenvalues and the invariant Q diag(lambda^2) Q^T): coefficients < D\' computed with D = 7 equal those computed from the input truncated to D\' in {3, 6}',
+         'sizes <= 5, D = 7, P <= 2', lambda c: ('degree:%s' % c['fn'], 'n=%s' % c['n']))
     rep.assume(*[ASSUME[k_] for k_ in ('A1', 'A3', 'A6', 'A8', 'A8b', 'A9', 'A11')])
     rep.extra['explanation'] = 'the spec functions of contracts/spec.py take (coefficient array, order) and not D; their defining recursion at order n reads x[0..n] only (causality by construction), so every discharged kernel postcondition is a proof of degree independence for that kernel'
     return rc
